@@ -1,6 +1,7 @@
 package props
 
 import (
+	"os"
 	"fmt"
 	"go/token"
 	"go/types"
@@ -64,6 +65,16 @@ func C01(c *Ctx) {
 
 	scope := consensusScope(c, consensusKinds)
 	r.Analysed["functions_on_consensus_paths"] = len(scope)
+	if os.Getenv("MCDEBUG") == "dyn" {
+		var fl []*ssa.Function
+		for f := range scope {
+			fl = append(fl, f)
+		}
+		sortFuncs(fl)
+		for _, call := range w.UnresolvedDynamicCalls(fl) {
+			fmt.Fprintln(os.Stderr, "dyn", fn(call.Parent()), w.InstrPos(call), w.ExprOf(call.Common().Value).String())
+		}
+	}
 	r.Floor("consensus roots", len(w.RootSet(consensusKinds...)), 60)
 	var fs []*ssa.Function
 	for f := range scope {
